@@ -307,8 +307,7 @@ def check_c15(pid, tier, t0, replay_key):
         obl += o
         st.update(s2)
     import e7
-    g1dom = e7.Analysis(P, e7.Domain(P, tables["e7_tables"]["parser"]))
-    f, o, s2 = e4.rule_x10(P, reach, tables, g1dom.relevant_or_closure)
+    f, o, s2 = e4.rule_x10(P, reach, tables, e7.g1_covers(P, tables))
     findings += f
     obl += o
     st.update(s2)
